@@ -5,6 +5,7 @@ every run), honest synthesis (`h = none`).
 -/
 import Decaf.Props.C13
 import Decaf.Lemmas.Formulas.R1cs
+import Decaf.Lemmas.Formulas.OpForms
 
 namespace C13.Translated
 open Model Edwards Decaf
@@ -39,5 +40,13 @@ theorem decompress_complete_iff {s : ℕ} (hs : s < q) :
 theorem isEq_gadget {a b : ℕ × ℕ} {P Q : E} (ha : C13.AffRep a P) (hb : C13.AffRep b Q) :
     Code.r1csIsEq a b = true ↔ Point.Coset P Q := by
   rw [Code.r1csIsEq_eq]; exact C13.isEq_gadget ha hb
+
+/-- the operator forms of the gadget variables (`impl Add/Sub/…Assign for ElementVar`, with `ElementVar` and with constant
+`Element` operands, in src/ark_curve/r1cs/{ops,inner}.rs; entries of the regenerated lists labelled `r1cs/…`) carry the
+group sum / difference of the carried values — the same denotation as the native forms in the same lists (C04) -/
+theorem gadget_operator_forms (P Q : E) :
+    (∀ f ∈ (Gen.OpForms.addForms : List (String × (E → E → E))), f.2 P Q = P + Q) ∧
+    (∀ f ∈ (Gen.OpForms.subForms : List (String × (E → E → E))), f.2 P Q = P - Q) :=
+  ⟨fun f hf => Formulas.OpForms.addForms_correct f hf P Q, fun f hf => Formulas.OpForms.subForms_correct f hf P Q⟩
 
 end C13.Translated
